@@ -30,7 +30,7 @@ func init() {
 				Rule: "openCheckpoint's success is dominated by note.Open success with the verifier of (config.Name, config.Key.Public()), the RFC 6962 signature found, origin equality, empty extension and the parsed checkpoint being the note's text", Run: c06e},
 			{ID: "C06.g", Title: "LOCK-CAS", Template: "T5+T8", MinInst: 10,
 				Rule: "every lock backend's Replace/Create carries its precondition and a failed conditional write is an error (as C05.b, C05.g): at most one instance can extend a given checkpoint",
-				Run:  func(c *Ctx) { c05b(c); c05g(c) }},
+				Run:  func(c *Ctx) { c05b(c); c05g(c); c05d(c) }},
 			{ID: "C06.j", Title: "PUBLISH-ONLY-BY-WINNER", Template: "T1+T4+T6", MinInst: 3,
 				Rule: "the published checkpoint object is written only by a function that has just won the lock-store commit (Replace/Create success edge) and with the committed bytes (as C01.a, C01.b): an instance that loses, is stale, or is only starting up publishes nothing",
 				Run:  func(c *Ctx) { c01a(c); c01b(c) }},
